@@ -278,3 +278,8 @@ def finalize(ctx):
         ctx.inconc("the execute phase never read from a source: harness broken")
     if not ctx.tables.get("accessor_calls"):
         ctx.inconc("no accessor was exercised")
+
+
+RULE += (
+    ' Sources also enter through asarray/asanyarray(dtype=)/operator coercion/as assignment values; kernels include blockwise(dtype=) over re-expanded 0-d values, declared map_overlap + halo-free slice, and a non-empty sample meta=.'
+)
